@@ -37,13 +37,17 @@ CONDS_BOOL = ("flag", "not flag", "flag == True", "i % 2 == 0", "i > 2", "val > 
 CONDS_FAIL = ("nosuch_name", "1 / 0", "host_raise('true')", "host_raise('1')", "host_raise('yes')", "host_raise('y')",
               "host_raise('t')", "host_raise('True')", "host_raise_base('true')", "host_raise_base('boom')",
               "person.nope", "data['zz'] > 1", "time_ns() > 0", "LocationAction is not None", "deep is not None",
-              "uuid is not None", "ConfigService is not None", "flag and nosuch_name", "host_raise('true') if i > 1 else False")
+              "uuid is not None", "ConfigService is not None", "flag and nosuch_name", "host_raise('true') if i > 1 else False",
+              # x is a local of the function that is not bound yet at the tracepoint line (there is a global x)
+              "x == 'GLOBAL-X'", "x is not None")
 WATCHES_OK = ("i", "val", "name", "person", "person.name", "person.greet()", "data", "data['l']", "G_HOST", "G_LIST",
               "len(name)", "max(i, 3)", "str(val) + name", "[i, val]", "flag and i",
               "sum(v * i for v in data['l'])", "(lambda: name)()", "sorted(data['l'], key=lambda v: -v * i)",
               "{n_: i for n_ in name[:2]}")
 WATCHES_BAD = ("nosuch", "1 / 0", "person.nope", "data['zz']", "time_ns", "LocationAction", "deep", "uuid",
-               "FrameCollector", "host_raise('x')", "host_raise_base('b')", "TriggerContext", "str2bool")
+               "FrameCollector", "host_raise('x')", "host_raise_base('b')", "TriggerContext", "str2bool",
+               # the failure itself cannot be turned into text (KeyError's text is the repr of the key)
+               "host_raise_rude()", "G_TAB[G_BADNUM]", "x")
 
 
 def generate(seed, tier):
@@ -160,7 +164,7 @@ def execute(s, ch):
                     got = snap.var_lookup[w_.good_result.ID] if has_good else None
                     viol.append(V("failing-expression-looks-successful", "%r fails in the frame's scope with %s(%s) but "
                                   "the snapshot reports type=%r value=%r" % (
-                                      w_.expression, type(val).__name__, val, got.type if got else None,
+                                      w_.expression, type(val).__name__, hitcommon.etext(val), got.type if got else None,
                                       got.value[:60] if got else None)))
             else:
                 if w_.error_result or not has_good:
